@@ -18,7 +18,7 @@ IMPORTS = "Require Import V.gen.Consts V.model.ClientRead V.model.SelfEnc."
 THEOREMS = ["se_constants", "partition_exact", "src_chunk_bound", "src_chunk_le_max",
             "src_chunk_le_max_at_boundary_refuted", "roundtrip", "pack_terminates", "pack_side_condition",
             "fetch_order_irrelevant", "deterministic", "content_addressed", "root_chunk_le_max",
-            "produced_chunk_le_max_refuted", "produced_chunk_le_max_outside_known", "too_small_rejected", "codec_laws_satisfiable"]
+            "produced_chunk_le_max_refuted", "produced_chunk_le_max_outside_known", "pack_accepted_by_size_acceptor", "too_small_rejected", "codec_laws_satisfiable"]
 RULE = ("lengths 0-9 and every size-class boundary of the partition (3*MAX, k*MAX for k=4..6, each -1/0/+1, plus "
         "lengths inside each class) for the shipped MAX_CHUNK_SIZE; for the MAX_CHUNK_SIZE=1024 build additionally "
         "the lengths at which the data map starts to need a second and a third level (+-1 chunk); contents "
@@ -191,7 +191,7 @@ def model_term(c, o):
     levels = o["levels"]
     if any("infos" not in L for L in levels):
         return "false"
-    trace = clist([cpair(cN(L["wrapped_len"]), cN(len(L["infos"]))) for L in levels])
+    trace = clist([cpair(cN(L["wrapped_len"]), cN(len(L["infos"]))) for L in reversed(levels)])   # deepest level first
     terms.append("agree_pack %s %s" % (maxt, trace))
     # the deepest level partitions the input; every level above partitions the serialised chunk below it
     for li, L in enumerate(levels):
